@@ -90,5 +90,11 @@ for d in sorted(glob.glob("seeded/C*/")):
         "detected_by_current_checks": (fin or {}).get("detected"),
         "mechanisms_reported": sorted({m for c in (fin or first or {}).get("checks", {}).values() for m in c.get("mechanisms", [])}),
     }
-    json.dump(meta, open(os.path.join(d, "meta.json"), "w"), indent=1)
+    mp = os.path.join(d, "meta.json")
+    if os.path.exists(mp):  # keep hand-written fields
+        prev = json.load(open(mp))
+        for k in ("run_checks", "note"):
+            if k in prev:
+                meta[k] = prev[k]
+    json.dump(meta, open(mp, "w"), indent=1)
 print("meta written for", len(glob.glob("seeded/C*/meta.json")))
